@@ -24,7 +24,9 @@ CH = {'a': 'a', 'amp': '&', 'eq': '=', 'quot': '"', 'apos': "'", 'lt': '<', 'gt'
       # a backslash, alone and in the spellings regular-expression replacement templates interpret
       'bslash': '\\', 'bsesc': '\\t', 'bsgroup': '\\g<0>',
       # a run of 70 000 characters (a photo attribute): size limits of inflaters and form fields
-      'big': 'photo' * 14000}
+      'big': 'photo' * 14000,
+      # an empty line inside the value, and the Unicode line / paragraph separators (line-oriented post-processing)
+      'blankline': 'a\n\nb\n \nc', 'linesep': u'a\u2028b\u2029c'}
 B = {'redirect': env.BINDING_REDIRECT, 'post': env.BINDING_POST, 'soap': env.BINDING_SOAP,
      'artifact': 'urn:oasis:names:tc:SAML:2.0:bindings:HTTP-Artifact', 'paos': 'urn:oasis:names:tc:SAML:2.0:bindings:PAOS'}
 ARTIFACT = 'AAQAAMFbLinlXaCM+FIxiDwGOLAy2T71gbpO7ZhNzAgEANlB90ECfpNEVLg/=='
